@@ -1,7 +1,7 @@
 SPECIFICATION TraceSpec
 CONSTANTS
     FieldBytes <- TrFieldBytes
-    NormOf <- TrNormOf
+    NormTable <- TrNormTable
     BatchOf <- TrBatchOf
 INVARIANTS
     Inv_C01 Inv_C02 Inv_C03 Inv_C04 Inv_C05 Inv_C06 Inv_C07 Inv_C08 Inv_C09 Inv_C10
